@@ -364,6 +364,10 @@ def r5_handlers_answer_errors(ctx):
         r.anchor_missing("server handlers (found %d)" % len(hs))
 
 
+# extra build configurations analysed in the thorough tier
+THOROUGH_CONFIGS = ['server-min', 'protocol-min']
+
+
 def run(ctx):
     ctx.explanation = (
         "Panic-site reachability over the resolved workspace call graph (with one level of type context for generic "
